@@ -182,6 +182,23 @@ def mutate(rng, prefix, lines):
     return bytes(e)
 
 
+def hp_parts(max_size, req, base):
+    """RFC 9204 4.5.1: (Encoded Required Insert Count, S, Delta Base) for a Required Insert Count and a Base
+    (a section without dynamic references is written with an all-zero prefix)"""
+    if req == 0:
+        return (0, 0, 0)
+    eic = req % (2 * (max_size // 32)) + 1
+    if base >= req:
+        return (eic, 0, base - req)
+    return (eic, 1, req - base - 1)
+
+
+def hpe_case(max_size, b, m, k):
+    """q.hpe: b old insertions, a section referencing old entry m (0 = none) and inserting k new entries"""
+    req = b + k if k else m
+    return 'q.hpe %d %d %d %d %d %d %d' % ((max_size, b, m, k) + hp_parts(max_size, req, b))
+
+
 # ------------------------------------------------------------------ property
 
 class P(Property):
@@ -201,9 +218,9 @@ class P(Property):
             'non-minimal integers, Delta Base values) and their grammar-directed single-point mutations (Required Insert Count, S bit, '
             'T bit, pattern bits, static index 98/99/100, bit flips, truncation, insertion, deletion, trailing octets), integers with '
             '8..11 continuation octets, Huffman payloads with 0..40 bits of one-padding, seeded random strings, finite limits around '
-            'the section size, sections of 50..1000 field lines (valid, and with one bad line first / in the middle / last), string lengths k*2^32+j, k*2^16+j with j octets present in all four string positions; every q.enc output is also read back by the own decoder of h3; the HEADERS payloads written by the three production send sites (both roles, lists up to 300 fields x 300 octets) are read back by the reference decoder; the section prefix at S x Delta Base up to 2^63+126 and Required Insert Count up to 2^64-1; string literals of 301..65536 octets (2^20 in thorough) really present in all four positions, raw and (up to 4097 / 16511) Huffman; 150 (quick) refused sections are sent by a scripted peer to the real server and client over SimQuic as request, response, request trailers and response trailers: connection error 0x200 and close(0x200) required; q.decc: the same kinds of inputs handed over as NON-contiguous multi-chunk buffers (h3v::ChunkBuf), cut at every position (one cut), at every pair of positions (two cuts), into single octets, and at seeded random positions. non-trivial = distinct q.enc cases with a '
+            'the section size, sections of 50..1000 field lines (valid, and with one bad line first / in the middle / last), string lengths k*2^32+j, k*2^16+j with j octets present in all four string positions; every q.enc output is also read back by the own decoder of h3; the HEADERS payloads written by the three production send sites (both roles, lists up to 300 fields x 300 octets) are read back by the reference decoder; the section prefix at S x Delta Base up to 2^63+126 and Required Insert Count up to 2^64-1; string literals of 301..65536 octets (2^20 in thorough) really present in all four positions, raw and (up to 4097 / 16511) Huffman; 150 (quick) refused sections are sent by a scripted peer to the real server and client over SimQuic as request, response, request trailers and response trailers: connection error 0x200 and close(0x200) required; q.decc: the same kinds of inputs handed over as NON-contiguous multi-chunk buffers (h3v::ChunkBuf), cut at every position (one cut), at every pair of positions (two cuts), into single octets, and at seeded random positions. q.hpe: the section prefix written by HeaderPrefix::encode with non-zero components (the real stateful encoder steered to Required Insert Count 0..800 and Base 0..400, S = 0 and S = 1, one- to three-octet integers in both positions) against the hp_encode / hp_decode and the RFC 9204 4.5.1 reading of the written octets; the error class word of the model column comes from decompression_failed of the model. non-trivial = distinct q.enc cases with a '
             'non-empty list and distinct q.dec/q.decc cases in which the field-line loop is entered (a 2-octet prefix with Required '
-            'Insert Count 0 and S=0 followed by at least one octet)')
+            'Insert Count 0 and S=0 followed by at least one octet) and q.hpe cases with a non-zero Required Insert Count')
     trusted_extra = [
         'coq/Spec/RFC9204Static.v: the 99 rows of RFC 9204 Appendix A transcribed by hand from the RFC (proved equal to h3\'s rows)',
         'lib/props/c11.py: python encoder used only to BUILD valid and mutated inputs; verdicts come from the extracted reference decoder',
@@ -382,6 +399,27 @@ class P(Property):
                     2 ** 63 + 254, 2 ** 63 + 255, 2 ** 64 - 1):
             for tail in ('00d1', '80d1', '00', ''):
                 out.append('q.dec - ' + pint(8, 0, ric).hex() + tail)
+        # --- the section prefix as `HeaderPrefix::encode` WRITES it when Required Insert Count / Base are not zero (the stateless
+        #     encoder only ever writes 00 00): the real stateful encoder is steered to required = b+k / m and base = b, the model
+        #     encodes the RFC 9204 4.5.1 components; one-, two- and three-octet integers in both positions, S = 0 and S = 1
+        marks = [0, 1, 2, 3, 62, 63, 64, 125, 126, 127, 128, 129, 130, 253, 254, 255, 256, 257, 381, 382, 383, 384, 400]
+        hpe = set()
+        for b in marks:
+            fit = 40 * b + 64
+            hpe.add((fit, b, 0, 0))
+            for m in {1, 2, b // 2, b - 127, b - 128, b - 1, b}:
+                if 1 <= m <= b:
+                    hpe.add((fit, b, m, 0))
+                    hpe.add((2 ** 30 - 1, b, m, 0))
+            for k in (1, 2, 3, 127, 128, 129, 130, 254, 255, 256, 383, 384):
+                if b in (0, 1, 127, 254, 255, 383) or k in (1, 128, 129):
+                    hpe.add((40 * (b + k) + 64, b, rng.choice([0, b]), k))
+        for _ in range(300 if quick else 3000):
+            b, k = rng.choice(marks + [rng.randint(0, 400)]), rng.choice([0, 0, 1, rng.randint(0, 400), rng.choice(marks)])
+            m = rng.choice([0, b, rng.randint(0, b)])
+            hpe.add((rng.choice([40 * (b + k) + 64, 40 * (b + k) + 64 + rng.randint(0, 4096), 2 ** 20, 2 ** 30 - 1]), b, m, k))
+        for t in sorted(hpe):
+            out.append(hpe_case(*t))
         # --- long string literals that are really PRESENT, in all four string positions, raw and Huffman
         #     (Huffman only up to 4097 / 16511 octets: the extracted decoder model is quadratic in the payload length)
         raw_lens = [301, 1024, 4095, 4096, 4097, 16511, 65536] + ([] if quick else [2 ** 20])
@@ -478,6 +516,10 @@ class P(Property):
         if case.startswith('q.blk'):
             a, b = out.split(), spec.split()
             return len(a) == 3 and len(b) == 4 and a[:3] == b[:3]
+        if case.startswith('q.hpe'):
+            a, b = out.split(), spec.split()
+            # bytes: model = impl exactly (core), reference reading of the model bytes (driver) and of the written bytes (extra_checks)
+            return len(a) == 3 and len(b) == 3 and a[0] == 'ok' and b[1] == '*' and a[2] == b[2]
         if case.startswith('q.enc'):
             a, b = out.split(), spec.split()
             # the bytes themselves are judged by the reference decoder (driver for the model, extra_checks for the implementation)
@@ -562,6 +604,16 @@ class P(Property):
                     viol.append(('property-fails-on-input', {'input': l[:2000], 'impl': r[:300], 'model': None,
                                                              'spec': 'reference decoder on the HEADERS payload written by the send site: %s (expected ok %s)' % (d[:200], wnt[:200])}))
                     break
+        # 1e. the section prefixes the stateful encoder WROTE (q.hpe), read by the RFC integer decoder: the components of the case
+        hpes = [(c, i) for c, i, m, s in ctx['rows'] if c.startswith('q.hpe') and i.startswith('ok ')]
+        if hpes and ctx['model_exe'] and len(viol) < 3:
+            res = run_cases(ctx['model_exe'], ['q.hpref ' + i.split()[1] for _, i in hpes])
+            for (c, i), r in zip(hpes, res):
+                want = 'ok ' + ','.join(c.split()[5:8])
+                if r.strip() != want:
+                    viol.append(('property-fails-on-input', {'input': c, 'impl': i, 'model': None,
+                                                             'spec': 'RFC 9204 4.5.1 reading of the written prefix: %s (expected %s)' % (r[:200], want)}))
+                    break
         # 2. known finding F15b propagated through string literals
         n = 0
         for c, i, m, s in ctx['rows']:
@@ -581,6 +633,8 @@ class P(Property):
             return None if w[1] == '-' else case
         if w[0] == 'q.blk':
             return case
+        if w[0] == 'q.hpe':
+            return case if w[5] != '0' else None
         h = w[2].replace('.', '')
         if len(h) < 6 or h[:2] != '00' or int(h[2:4], 16) >= 0x7f:
             return None
